@@ -38,7 +38,9 @@ def other_pkg_file():
     op = 'acme.other.v1'
     return file('acme/other/v1/common.proto', op,
                 messages=[message('Money', [field('units', 1, 'int64'), field('currency', 2, 'string')]),
-                          message('PriceRequest', [field('name', 1, 'string'), field('at', 2, f'.{op}.Money')])])
+                          message('PriceRequest', [field('name', 1, 'string'), field('at', 2, f'.{op}.Money')]),
+                          message('ListPricesRequest', [field('parent', 1, 'string'), field('page_size', 2, 'int32'), field('page_token', 3, 'string')]),
+                          message('ListPricesResponse', [field('prices', 1, f'.{op}.Money', repeated=True), field('next_page_token', 2, 'string')])])
 
 
 def build():
@@ -85,9 +87,16 @@ def build():
             cells.append(dict(id=f'{ar}/same/same/unsafe:{nm}', service='Names', rpc=nm, py=names.py_method(nm),
                               arity=KIND[ar], req=Q('LocalReq'), resp=Q('LocalResp')))
     services.append(service('Names', ms))
+    # paginated RPCs whose request and response types come from a dependency package (the returned pager wraps the reply)
+    ms = []
+    for nm, rq, rs in (('ListDepInstalled', '.google.cloud.location.ListLocationsRequest', '.google.cloud.location.ListLocationsResponse'),
+                       ('ListDepSynth', '.acme.other.v1.ListPricesRequest', '.acme.other.v1.ListPricesResponse')):
+        ms.append(method(nm, rq, rs))
+        cells.append(dict(id=f'uu/paged/{nm}', service='Paged', rpc=nm, py=names.py_method(nm), arity=KIND['uu'], req=rq, resp=rs))
+    services.append(service('Paged', ms))
     main = file('acme/rpc/v1/svc.proto', P, messages=local_msgs, enums=[kind], services=services)
     dep = other_pkg_file()
-    mods = ['google.iam.v1.iam_policy_pb2']
+    mods = ['google.iam.v1.iam_policy_pb2', 'google.cloud.location.locations_pb2']
     std = desc.std_dep_names(mods)
     other.dependency.extend(std)
     main.dependency.extend(std + [other.name, dep.name])
@@ -103,7 +112,9 @@ def build_pp():
     """A second library whose dependency package is itself a proto-plus library (option proto-plus-deps)."""
     common = file('acme/common/v1/common.proto', PP, messages=[
         message('Thing', [field('name', 1, 'string'), field('n', 2, 'int32'), field('class', 3, 'string')]),
-        message('ThingReply', [field('note', 1, 'string'), field('parts', 2, f'.{PP}.Thing', repeated=True)])])
+        message('ThingReply', [field('note', 1, 'string'), field('parts', 2, f'.{PP}.Thing', repeated=True)]),
+        message('ListThingsRequest', [field('parent', 1, 'string'), field('page_size', 2, 'int32'), field('page_token', 3, 'string')]),
+        message('ListThingsResponse', [field('things', 1, f'.{PP}.Thing', repeated=True), field('next_page_token', 2, 'string')])])
     common.dependency.extend(desc.std_dep_names())
     pre_req = request([common], 'transport=grpc,autogen-snippets=false')
     desc.gate(pre_req)
@@ -116,6 +127,10 @@ def build_pp():
             ms.append(method(name, locs_req[rq], locs_resp[rs], cs=cs, ss=ss))
             cells.append(dict(id=f'pp/{ar}/{rq}/{rs}', service='Widgets', rpc=name, py=names.py_method(name), arity=KIND[ar],
                               req=locs_req[rq], resp=locs_resp[rs]))
+    # a paginated RPC over the proto-plus dependency's own list request / response
+    ms.append(method('ListThings', f'.{PP}.ListThingsRequest', f'.{PP}.ListThingsResponse'))
+    cells.append(dict(id='pp/uu/paged/plus_dep', service='Widgets', rpc='ListThings', py='list_things', arity=KIND['uu'],
+                      req=f'.{PP}.ListThingsRequest', resp=f'.{PP}.ListThingsResponse'))
     main = file('acme/widgets/v1/widgets.proto', PW, messages=[
         message('WReq', [field('name', 1, 'string'), field('thing', 2, f'.{PP}.Thing')]),
         message('WResp', [field('ok', 1, 'bool'), field('thing', 2, f'.{PP}.Thing')])], services=[service('Widgets', ms)])
